@@ -14,9 +14,13 @@ def _selftest(ctx):
     class R:
         modules = {'fixture': mi}
     by = argsel.index_functions(R)
-    res = {q.split('.')[1]: bool(argsel.scan_function(R, by, 'fixture', q, f)) for q, f in mi.functions.items() if q != 'Fixture.derive'}
+    res = {q.split('.')[1]: bool(argsel.scan_function(R, by, 'fixture', q, f)) for q, f in mi.functions.items() if q.startswith('Fixture.') and q != 'Fixture.derive'}
     if res != {'bad': True, 'good': False, 'good_positional': False}:
         raise AnalysisError('ARGSEL fixtures classified %s' % res)
+    res2 = {q.split('.')[1]: bool(argsel.scan_keyed(R, by, 'fixture', q, f)) for q, f in mi.functions.items() if q.startswith('KeyedFixture.') and q != 'KeyedFixture.check'}
+    if res2 != {'bad_keyed': True, 'good_keyed': False}:
+        raise AnalysisError('ARGSEL keyed fixtures classified %s' % res2)
+    res.update(res2)
     ctx.saw('argument-binding self-test on fixtures: %s' % res)
 
 
@@ -32,4 +36,7 @@ def arg_binding(ctx, modules, why):
             for c, name, bad in argsel.scan_function(ctx.repo, by, modname, q, f):
                 a, p, i = bad[0]
                 ctx.violate('%s:%s' % (modname, q), 'in `%s` the positional argument `%s` (position %d) is bound to parameter `%s` of %s, which also has a parameter `%s`' % (norm(c)[:90], a, i + 1, p, name, a), c, why)
+            for c, name, bad in argsel.scan_keyed(ctx.repo, by, modname, q, f):
+                a, p, i = bad[0]
+                ctx.violate('%s:%s' % (modname, q), 'in `%s` the value taken from key %r (position %d) is bound to parameter `%s` of %s, which has another parameter named after that key' % (norm(c)[:110], a, i + 1, p, name), c, why)
     ctx.saw('%d functions, %d calls with two or more positional arguments checked' % (n, calls))
